@@ -51,16 +51,26 @@ Div(a, b) ==
 \* b is +-2^k: then 1/b is exact in binary floating point (the code multiplies by stored reciprocals)
 IsPow2(b) == IsExact(b) /\ b[1] # 0 /\ AbsI(OddPart(b[1])) = 1
 
-\* ---- vectors (sequences) and matrices (sequences of rows) -----------------------------------------
-RECURSIVE DSumSeq(_, _)
-DSumSeq(s, k) == IF k = 0 THEN Zero ELSE Add(DSumSeq(s, k - 1), s[k])
-DSum(s) == DSumSeq(s, Len(s))
+\* ---- vectors (tuples) and matrices (tuples of rows) ---------------------------------------------------
+\* Results are built as explicit tuples: a function expression [i \in S |-> e] is evaluated lazily by TLC (the
+\* body is re-evaluated at every application), which makes nested substitutions exponential.
+Tup(len, F(_)) ==
+  CASE len = 0 -> <<>>
+    [] len = 1 -> <<F(1)>>
+    [] len = 2 -> <<F(1), F(2)>>
+    [] len = 3 -> <<F(1), F(2), F(3)>>
+    [] len = 4 -> <<F(1), F(2), F(3), F(4)>>
+    [] len = 5 -> <<F(1), F(2), F(3), F(4), F(5)>>
+    [] len = 6 -> <<F(1), F(2), F(3), F(4), F(5), F(6)>>
+
+RECURSIVE DSumTo(_, _)
+DSumTo(F(_), k) == IF k = 0 THEN Zero ELSE Add(DSumTo(F, k - 1), F(k))     \* F(1) + ... + F(k)
 
 VecExact(v) == \A i \in 1..Len(v) : IsExact(v[i])
-MatExact(n, A) == \A i \in 1..n : \A j \in 1..n : IsExact(A[i][j])
-VAdd(u, v) == [i \in 1..Len(u) |-> Add(u[i], v[i])]
-VSub(u, v) == [i \in 1..Len(u) |-> Sub(u[i], v[i])]
-VScale(a, v) == [i \in 1..Len(v) |-> Mul(a, v[i])]
-MatVec(n, A, x) == [i \in 1..n |-> DSum([j \in 1..n |-> Mul(A[i][j], x[j])])]
-MatMul(n, A, B) == [i \in 1..n |-> [k \in 1..n |-> DSum([j \in 1..n |-> Mul(A[i][j], B[j][k])])]]
+VAdd(u, v) == Tup(Len(u), LAMBDA i : Add(u[i], v[i]))
+VSub(u, v) == Tup(Len(u), LAMBDA i : Sub(u[i], v[i]))
+VScale(a, v) == Tup(Len(v), LAMBDA i : Mul(a, v[i]))
+VMul(u, v) == Tup(Len(u), LAMBDA i : Mul(u[i], v[i]))
+MatVec(n, A, x) == Tup(n, LAMBDA i : DSumTo(LAMBDA j : Mul(A[i][j], x[j]), n))
+MatMul(n, A, B) == Tup(n, LAMBDA i : Tup(n, LAMBDA k : DSumTo(LAMBDA j : Mul(A[i][j], B[j][k]), n)))
 =============================================================================
